@@ -170,10 +170,13 @@ func (memPool *MemPool) removeTransaction(hash bitcoin.Hash32) bool {
 			otherHashes, exists := memPool.inputs[*outpointHash]
 			if exists { // It should always exist
 				if len(otherHashes) > 1 {
-					// Remove this outpoint hash from the list
+					// Remove this tx hash from the list of spenders of the outpoint
 					for i, otherHash := range otherHashes {
-						if otherHash.Equal(outpointHash) {
-							otherHashes = append(otherHashes[:i], otherHashes[i+1:]...)
+						if otherHash.Equal(&hash) {
+							remaining := make([]bitcoin.Hash32, 0, len(otherHashes)-1)
+							remaining = append(remaining, otherHashes[:i]...)
+							remaining = append(remaining, otherHashes[i+1:]...)
+							memPool.inputs[*outpointHash] = remaining
 							break
 						}
 					}
